@@ -128,6 +128,7 @@ type simCtx struct {
 	depth int
 	phiBusy map[*ssa.Phi]bool
 	lookupBusy bool
+	litLoop *sliceRange // loop over a list literal that contains the subject: its element stands for the subject
 }
 
 // subject matching ---------------------------------------------------------
@@ -178,6 +179,9 @@ func (c *simCtx) isBase(v ssa.Value) bool {
 	}
 	if !c.sc.Elem {
 		if c.sc.Param < len(c.f.Params) && v == ssa.Value(c.f.Params[c.sc.Param]) {
+			return true
+		}
+		if c.litLoop != nil && c.litLoop.isElem(v) {
 			return true
 		}
 		// element of the notation-converted one-element list {subject}
@@ -833,7 +837,42 @@ func (e *scEngine) check(g *ssa.Function, sc scenario, depth int) (bool, string)
 	if !sc.Elem {
 		c := &simCtx{e: e, f: g, sc: sc, depth: depth}
 		reach := c.explore(g.Blocks[0], nil)
-		return c.verdict(reach, nil)
+		ok, why := c.verdict(reach, nil)
+		if ok || sc.Param >= len(g.Params) {
+			return ok, why
+		}
+		// the subject is handled inside a loop over a list literal that contains it
+		for _, sr := range findSliceRanges(g) {
+			vals, isLit := sliceLiteral(sr.X)
+			if !isLit {
+				continue
+			}
+			has := false
+			for _, v := range vals {
+				if resolve(v) == ssa.Value(g.Params[sc.Param]) {
+					has = true
+				}
+			}
+			if !has {
+				continue
+			}
+			// no iteration may answer success before every element was handled
+			early := false
+			for _, r := range returnsOf(g) {
+				if sr.blocks()[r.Block()] && !e.isFailureReturn(g, r) {
+					early = true
+				}
+			}
+			if early {
+				continue
+			}
+			c2 := &simCtx{e: e, f: g, sc: sc, depth: depth, litLoop: sr}
+			reach2 := c2.explore(sr.Body, nil)
+			if ok2, _ := c2.verdict(reach2, sr); ok2 {
+				return true, ""
+			}
+		}
+		return ok, why
 	}
 	// element subject: find the loops over the list parameter
 	var loops []*sliceRange
@@ -889,14 +928,25 @@ func (c *simCtx) explore(start *ssa.BasicBlock, stop map[*ssa.BasicBlock]bool) m
 			if !ok || cmp.Op != token.LSS {
 				continue
 			}
-			phi, ok := cmp.X.(*ssa.Phi)
-			if !ok || phi.Block() != blk {
+			var phi *ssa.Phi
+			delta := int64(0)
+			if p, ok := cmp.X.(*ssa.Phi); ok {
+				phi = p
+			} else if inc, ok := cmp.X.(*ssa.BinOp); ok && inc.Op == token.ADD {
+				// rangeindex form: (phi + 1) < bound with phi starting at -1
+				if p, ok := inc.X.(*ssa.Phi); ok {
+					if k, ok := constInt(inc.Y); ok {
+						phi, delta = p, k
+					}
+				}
+			}
+			if phi == nil || phi.Block() != blk {
 				continue
 			}
 			init, hasInit := int64(0), false
 			for _, e := range phi.Edges {
 				if k, ok := constInt(e); ok {
-					init, hasInit = k, true
+					init, hasInit = k+delta, true
 				}
 			}
 			if !hasInit {
